@@ -64,15 +64,38 @@ fn main() {
                     unsafe { libc::_exit(0) };
                 }
                 // a history that does not finish (a call that blocks for ever, e.g. a lock taken twice on an error path) is data too:
-                // the child is killed after 5 s (a history takes milliseconds: the clock is virtual) and the history ends with an `abort` record that says so
+                // the child is killed when it has slept without progress for 5 s and the history ends with an `abort` record that says so
                 let mut status: libc::c_int = 0;
-                let t0 = clock::real_ns();      // the virtual clock is on in this process: Instant::now() stands still
+                // A hang is a child that SLEEPS (every task in state S) without using any CPU time for 5 s of real time (raw clock: the virtual clock
+                // stands still here). A child that is merely starved on a loaded machine is runnable (state R) or makes progress, and is waited for.
+                let cpu_and_sleeping = |pid: i32| -> (u64, bool) {
+                    let mut cpu = 0u64; let mut all_sleep = true;
+                    if let Ok(rd) = std::fs::read_dir(format!("/proc/{pid}/task")) {
+                        for t in rd.flatten() {
+                            if let Ok(st) = std::fs::read_to_string(t.path().join("stat")) {
+                                if let Some(p) = st.rfind(')') {
+                                    let f: Vec<&str> = st[p + 1..].split_whitespace().collect();
+                                    if f.first().map(|x| *x != "S").unwrap_or(true) { all_sleep = false; }
+                                    cpu += f.get(11).and_then(|x| x.parse::<u64>().ok()).unwrap_or(0) + f.get(12).and_then(|x| x.parse::<u64>().ok()).unwrap_or(0);
+                                }
+                            }
+                        }
+                    } else { all_sleep = false; }
+                    (cpu, all_sleep)
+                };
+                let t0 = clock::real_ns();
                 let mut hung = false;
+                let mut idle_since = t0; let mut last_cpu = u64::MAX;
                 loop {
                     let r = unsafe { libc::waitpid(pid, &mut status, libc::WNOHANG) };
                     if r == pid { break; }
-                    let el = clock::real_ns() - t0;
-                    if el > 5_000_000_000 { hung = true; hangs += 1; unsafe { libc::kill(pid, libc::SIGKILL); libc::waitpid(pid, &mut status, 0); } break; }
+                    let now = clock::real_ns();
+                    let el = now - t0;
+                    if el > 50_000_000 {
+                        let (cpu, sleeping) = cpu_and_sleeping(pid);
+                        if !sleeping || cpu != last_cpu { idle_since = now; last_cpu = cpu; }
+                        if now - idle_since > 5_000_000_000 || el > 300_000_000_000 { hung = true; hangs += 1; unsafe { libc::kill(pid, libc::SIGKILL); libc::waitpid(pid, &mut status, 0); } break; }
+                    }
                     unsafe { libc::usleep(if el < 50_000_000 { 100 } else { 5000 }); }
                 }
                 if hung || !(libc::WIFEXITED(status) && libc::WEXITSTATUS(status) == 0) {
